@@ -4,6 +4,7 @@ pub mod c15;
 pub mod c16unit;
 pub mod c17;
 pub mod c19;
+pub mod c20;
 pub mod concprops;
 pub mod crashprops;
 pub mod seqprops;
@@ -98,6 +99,7 @@ pub fn dispatch(id: &str, tier: Tier, seed: u64, replay: Option<&str>) -> i32 {
         "C07" => concprops::run("C07", tier, seed, replay),
         "C08" => concprops::run("C08", tier, seed, replay),
         "C18" => concprops::run("C18", tier, seed, replay),
+        "C20" => c20::run(tier, seed, replay),
         "C15" => c15::run(tier, seed, replay),
         "C02" => crashprops::run("C02", tier, seed, replay),
         "C03" => crashprops::run("C03", tier, seed, replay),
